@@ -6,6 +6,14 @@ TB = "Trusted base: vf/sim.py (datasheet-derived nRF24L01+ model incl. Enhanced 
 CHECKS = {
  "C01": ("model_checking", "6 C01", "exhaustive enumeration (E-ENUM) of configurations x payload lengths x buffer types x call forms and of all short payload lists, executing the real RF24 objects on two simulated radios",
          "Every (length mode, payload length 0..40, buffer type, call form) and every pipe/width/rate/CRC/ack/channel/front combination at 3 lengths is executed on the real driver pair and compared with the datasheet-derived expectation; all payload lists up to depth 3."),
+ "C07": ("model_checking", "6 C07", "explicit-state BFS (depth 2 quick / 3 thorough) over public network/mesh calls x environment answers on deep-copied simulated worlds; post-condition read from the simulated hardware",
+         "From 10 initial node configurations every sequence of API calls / injected frames x (next hop acks or not, NETWORK_ACK / lookup reply injected or not) up to the depth bound is executed on the real node object; after every call the radio must be powered, in RX, CE high, all six pipes on the node's reference addresses, EN_AA=0x3E, DYNPD=0x3F."),
+ "C13": ("fault_enumeration", "6 C13", "stateless choice-replay DFS: every single (thorough: pair of) lost frame hop(s) on routes of 1..8 hops, all 256 types on a 2-hop route, in a deterministic multi-node discrete-event world",
+         "Every failure point of every frame hop (message and NETWORK_ACK relays) is enumerated; NETWORK_ACK origination count/originator/addressee, write()'s return value against the ground-truth arrival time, and the blocking bound are checked on every execution."),
+ "C14": ("model_checking", "6 C14", "exhaustive enumeration of sender class x level x relay configuration x allow_multicast x length x timing class in a 9-node discrete-event world; reference propagation model",
+         "All combinations are executed with real nodes; receivers, levels, relays' re-broadcasts, absence of hardware ACKs / ACK requests and pipe-0 registers are compared with a reference propagation model."),
+ "C17": ("model_checking", "6 C17", "schedule enumeration (join order x pairwise-distinct start offsets x timing classes) of real mesh nodes joining a real master in a deterministic discrete-event world, plus every single lost frame of small joins",
+         "Every enumerated schedule is executed to completion; join results, master table, lookups (known/trivial/unknown), send-to-id, release and re-join are checked against the documented values; with one lost frame only no-exception/termination/valid-or-None."),
 }
 NA = {}
 def main():
